@@ -770,6 +770,10 @@ func (env *vfC14Env) runExec(sp vfC14ExecSpec) {
 		defer t.Stop()
 	}
 	cls, meta, detail := env.execute(ctx, sp)
+	if cls == "ctx" && ctx.Err() == nil {
+		// not the caller's context: the PREPARE runs on the connection's context, which ends when the connection dies
+		cls = "closed"
+	}
 	env.tr.Emit("e_end", "e", sp.E, "cls", cls, "meta", meta.json(), "detail", detail)
 	env.mu.Lock()
 	env.results[sp.E] = cls
